@@ -48,36 +48,90 @@ def pickKey (table : List String) (v : CVal) : String :=
 def chainWF (c : Chain) : Bool :=
   !c.isEmpty && stagesOK false c && nodupB (START :: (lowerKeys c ++ [END]))
 
+/-- a parsed stage body: its function, and every error it may return on an input when the
+    members of a parallel stage inside it complete in another order (`alts v` is empty iff
+    `f v` succeeds; the first element is `f v`'s own error) -/
+structure Body where
+  f : Fn
+  alts : CVal → List Err
+
+def Body.det (f : Fn) : Body :=
+  { f := f, alts := fun v => match f v with | .error e => [e] | .ok _ => [] }
+
+inductive PStage where
+  | lambda (b : Body)
+  | pass
+  | par (subs : List (String × Body))
+  | br (cond : CVal → Except Err String) (subs : List (String × Body))
+
+def PStage.stage : PStage → Stage
+  | .lambda b => .lambda b.f
+  | .pass => .passthrough
+  | .par subs => .parallel (subs.map fun kb => (kb.1, kb.2.f))
+  | .br cond subs => .branch cond (subs.map fun kb => (kb.1, kb.2.f))
+
+def parAlts (i : Nat) (v : CVal) : Nat → List (String × Body) → List Err
+  | _, [] => []
+  | j, (_, b) :: rest => (b.alts v).map (·.wrapNode (parKey i j)) ++ parAlts i v (j + 1) rest
+
+/-- every error a chain may return (any completion order of parallel members, at any depth) -/
+def chainAlts : Nat → List PStage → CVal → List Err
+  | _, [], _ => []
+  | i, st :: rest, v =>
+    match st with
+    | .par subs =>
+      let errs := parAlts i v 0 subs
+      if !errs.isEmpty then errs else
+      match st.stage.sem i v with
+      | .ok o => chainAlts (i + 1) rest o
+      | .error e => [e]
+    | .br cond subs =>
+      match cond v with
+      | .error e => [e]
+      | .ok k =>
+        match alookup k subs with
+        | none => [{ cls := .badBranchEnd }]
+        | some b =>
+          match b.f v with
+          | .error _ => (b.alts v).map (·.wrapNode (brKey i k))
+          | .ok o => chainAlts (i + 1) rest o
+    | .lambda b =>
+      match b.f v with
+      | .error _ => (b.alts v).map (·.wrapNode (nodeKey i))
+      | .ok o => chainAlts (i + 1) rest o
+    | .pass => chainAlts (i + 1) rest v
+
 mutual
 /-- a body and "every nested chain inside it is well-formed" -/
-partial def parseBody (j : Json) : JE (Fn × Bool) := do
+partial def parseBody (j : Json) : JE (Body × Bool) := do
   match (← J.str j "op") with
-  | "tag" => do let n ← J.str j "name"; pure (fun v => .ok (tagBody n v), true)
-  | "pass" => pure (fun v => .ok v, true)
-  | "fail" => do let id ← J.nat j "id"; pure (fun _ => .error { cls := .user id }, true)
+  | "tag" => do let n ← J.str j "name"; pure (Body.det (fun v => .ok (tagBody n v)), true)
+  | "pass" => pure (Body.det (fun v => .ok v), true)
+  | "fail" => do let id ← J.nat j "id"; pure (Body.det (fun _ => .error { cls := .user id }), true)
   | "graph" => do
       let g ← GraphCase.parseGraph (← J.field j "g")
       let r := compile GraphCase.defaultStepSlack g
-      pure (fun v => match toFlat v with
+      pure (Body.det (fun v => match toFlat v with
         | some m => (run GraphCase.flatOps r m).result.map ofFlat
-        | none => .error { cls := .fuel }, true)
+        | none => .error { cls := .fuel }), true)
   | "chain" => do
-      let (c, ok) ← parseChain (← J.field j "c")
-      pure (fun v => c.exec slack v, ok && chainWF c)
+      let (ps, ok) ← parseChain (← J.field j "c")
+      let c : Chain := ps.map (·.stage)
+      pure ({ f := fun v => c.exec slack v, alts := chainAlts 0 ps }, ok && chainWF c)
   | op => throw s!"bad body op {op}"
 
-partial def parseSubs (j : Json) : JE (List (String × Fn) × Bool) := do
+partial def parseSubs (j : Json) : JE (List (String × Body) × Bool) := do
   let subs ← (← J.arr j "subs").mapM (fun s => do
     let k ← J.str s "k"
     let (f, ok) ← parseBody (← J.field s "body")
     pure ((k, f), ok))
   pure (subs.map (·.1), subs.all (·.2))
 
-partial def parseStage (j : Json) : JE (Stage × Bool) := do
+partial def parseStage (j : Json) : JE (PStage × Bool) := do
   match (← J.str j "t") with
   | "lambda" => do let (f, ok) ← parseBody (← J.field j "body"); pure (.lambda f, ok)
-  | "pass" => pure (.passthrough, true)
-  | "par" => do let (subs, ok) ← parseSubs j; pure (.parallel subs, ok)
+  | "pass" => pure (.pass, true)
+  | "par" => do let (subs, ok) ← parseSubs j; pure (.par subs, ok)
   | "br" => do
       let (subs, ok) ← parseSubs j
       let table ← J.strList j "table"
@@ -86,10 +140,10 @@ partial def parseStage (j : Json) : JE (Stage × Bool) := do
         match failId with
         | some id => .error { cls := .branchUser id }
         | none => .ok (pickKey table v)
-      pure (.branch cond subs, ok)
+      pure (.br cond subs, ok)
   | t => throw s!"bad stage {t}"
 
-partial def parseChain (j : Json) : JE (Chain × Bool) := do
+partial def parseChain (j : Json) : JE (List PStage × Bool) := do
   let sts ← (← J.arr j "stages").mapM parseStage
   pure (sts.map (·.1), sts.all (·.2))
 end
@@ -100,19 +154,17 @@ def resultJson : Except Err CVal → Json
 
 /-- case → {"wf":…, "keys":[…], "result":engine, "sem":Chain.sem, "alts":[…]} -/
 def handle (c : Json) : JE Json := do
-  let (ch, nestedOK) ← parseChain (← J.field c "c")
+  let (ps, nestedOK) ← parseChain (← J.field c "c")
+  let ch : Chain := ps.map (·.stage)
   let x ← J.str c "input"
   let input : CVal := .map [("in", .leaf x)]
   let wf := nestedOK && chainWF ch
   let r := ch.runner slack
   let out := run cvalOps r input
-  let width := out.trace.foldl (fun m st => max m st.length) 1
-  let mkS (f : List (Key × Except Err CVal) → List (Key × Except Err CVal)) : Sched CVal := fun _ l => f l
-  let scheds : List (Sched CVal) :=
-    [mkS (fun l => l.reverse)] ++
-    (List.range width).map (fun i => mkS (fun l => (l.drop i).take 1 ++ (l.eraseIdx i)))
+  -- which failure a run reports depends on the order in which the members of a parallel stage
+  -- complete (at any nesting depth): every one of them is legitimate
   let alts : List Json := match out.result with
-    | .error _ => ((scheds.map (fun sc => (resultJson (runS cvalOps r sc input).result).compress)).eraseDups).filterMap
+    | .error _ => (((chainAlts 0 ps input).map (fun e => (resultJson (.error e)).compress)).eraseDups).filterMap
         (fun t => (Json.parse t).toOption)
     | .ok _ => []
   pure (Json.mkObj [("wf", Json.bool wf), ("keys", J.mkStrs (lowerKeys ch)),
